@@ -5,9 +5,11 @@
           the scanning API; the path entry point hands each option to the consumer of that role (Parser source root <- root_path,
           scan start <- module_path, file filter <- (regex_)exclusions, external filter <- its flag and patterns, graph <- level_limit)
   C04.R2  a module is registered exactly for every non-excluded directory / .py file; descent, reading and parsing only after the
-          exclusion test on the path itself (rules/scan.py, shared with C08)
+          exclusion test on the path itself (rules/scan.py); a scan by `os.walk` is decided on a model of the walk: followlinks=True,
+          the start and every kept sub-directory name pass the exclusion test (or the body tests the visited directory and empties
+          the list), names are taken out of the list in place and never while that list is iterated, every file name is handed on
   C04.R3  naming: root directory name + '.' + path relative to the root, suffix removed, one component per path part;
-          the root itself is named by its directory name
+          the root itself is named by its directory name (also as `[root.name, *rel.parts[:-1]]` + `rel.stem` only below the root)
   C04.R4  hierarchy: every scanned module becomes a node; all its ancestors (get_parent_modules) become nodes and every consecutive
           (parent, child) pair of the chain gets an `inherits=True` edge; nodes are never created from *imported* names
   C04.R5  prefixes: absolute-import prefix = module_path.parent relative to root_path.parent (dotted), used whenever module_path
@@ -551,13 +553,21 @@ def rule_r3(repo: Repo, res: Result) -> None:
         want_root = [("item", ("attr", root, "name"))]
         # the general form without suffix removal, used only when the path is the root (its relative path has no parts), is the root's name
         tests0 = _root_tests(sx, [g for g, _ in alts], rel, root)
-        unsuffixed = canon([("parts", rel)] if base_loc[0] == "PARENT" else [("item", ("attr", root, "name")), ("parts", rel)])
+        unsuffixed = [canon([("parts", rel)] if base_loc[0] == "PARENT" else [("item", ("attr", root, "name")), ("parts", rel)])]
+        if base_loc[0] != "PARENT":
+            # `[root.name, *rel.parts[:-1]]`, `[root.name, *rel.parent.parts]`: the empty relative path has no parts, and neither
+            # has its parent (`Path('.').parent` is `Path('.')`); no suffix removal and no `.stem` / `.name` component (both would
+            # fail on / append an empty component for the empty path)
+            up = rel
+            for _k in range(3):
+                up = ("PARENT", up)
+                unsuffixed.append(canon([("item", ("attr", root, "name")), ("parts", up)]))
 
         def names_root(g: Formula, v: Term) -> bool:
             d_ = dotted(v)
             if d_ == want_root:
                 return True
-            if d_ != unsuffixed or not tests0 or g == TRUE:
+            if d_ not in unsuffixed or not tests0 or g == TRUE:
                 return False
             g_ = rename_atoms(g, lambda k: (atom("ROOT") if tests0[k] else f_not(atom("ROOT"))) if k in tests0 else None)
             return implies(g_, atom("ROOT"))
@@ -911,6 +921,9 @@ class _Names:
                 return
             from .c04_symx import map_children
 
+            if x[0] == "slice":
+                visit(x[1])  # `name[:n]`: the bounds of a slice are positions, they contribute no characters of a name
+                return
             map_children(x, lambda y: (visit(y), y)[1])
 
         visit(t)
@@ -937,13 +950,15 @@ def _graph_state_atoms(sx: SymX, f: Formula, graph: Term, config: set[str], ends
     return ok
 
 
-def _is_presence_test(t: Term | None, x: Term, graph: Term) -> bool:
-    """`x in graph` / `graph.has_node(x)` (also on `graph.nodes`)."""
+def _is_presence_test(t: Term | None, x: Term, graph: Term, exact: bool = False) -> bool:
+    """`x in graph` / `graph.has_node(x)` (also on `graph.nodes`); unless `exact`, also such a test on one alternative of a chosen
+    name (`raw if limit is None else flattened`), which the executor tests alternative by alternative."""
     if t is None:
         return False
-    if t[0] == "cmp" and t[1] == "in" and t[2] == x:
+    same = (x,) + (tuple(v for _g, v in x[1]) if x[0] == "phi" and not exact else ())
+    if t[0] == "cmp" and t[1] == "in" and t[2] in same:
         return any(y[:2] == graph[:2] for y in subterms(t[3]))
-    if t[0] == "mcall" and t[2] == "has_node" and t[3] == (x,):
+    if t[0] == "mcall" and t[2] == "has_node" and len(t[3]) == 1 and t[3][0] in same:
         return t[1][:2] == graph[:2]
     return False
 
@@ -1158,7 +1173,7 @@ def rule_r4(repo: Repo, res: Result) -> None:
                 too_big = True
                 continue
             if not any(implies(f, t_) for t_ in tests_):
-                present = [key for key in atoms_of(f) if _is_presence_test(sx.atoms.get(key), x, graph)]
+                present = [key for key in atoms_of(f) if _is_presence_test(sx.atoms.get(key), x, graph, exact=True)]  # (a test of one alternative does not cover the others)
                 if not any(implies(f, atom(key)) for key in present):
                     missing.append(x)
         ok = not missing
